@@ -332,6 +332,11 @@ class Run:
                 wbad = [w for w in ws if mw and w.idx == int(mw.group(1))] or ws
                 self.violations.append({'slice': 'engine-b', 'template': cfg['template'], 'query': 'emitted-module-has-function:' + what, 'args': [to_i64(x) for x in wbad[0].args],
                                         'expected': 'every accessor / wrapper of the resolved model is present in the emitted module', 'native': txt[:1500]})
+            elif _re.search(r'error\[E0308\][^\n]*\n[^\n]*\n[^\n]*\n[^\n]*typed_accessor_result', txt) or ('typed_accessor_result' in txt and 'E0308' in txt):
+                mw = _re.search(r'--> src/w(\d+)/m\.rs:\d+:\d+\n[^\n]*\n[^\n]*typed_accessor_result', txt)
+                wbad = [w for w in ws if mw and w.idx == int(mw.group(1))] or ws
+                self.violations.append({'slice': 'engine-b', 'template': cfg['template'], 'query': 'vftable-accessor-returns-the-type-of-the-resolved-table', 'args': [to_i64(x) for x in wbad[0].args],
+                                        'expected': 'fn vftable(&self) -> *const <table type of the resolved model>', 'native': txt[:1500]})
             elif _re.search(r'error\[E06(03|16|24)\][^\n]*\n\s*--> src/lib\.rs', txt):
                 # the probe outside the emitted module names everything the semantic model marks public
                 self.violations.append({'slice': 'engine-b', 'template': cfg['template'], 'query': 'resolved-public-item-is-emitted-public', 'args': [to_i64(x) for x in ws[0].args],
